@@ -199,8 +199,8 @@ pub fn c12() -> PropDef {
             c.max_len = 12;
         }),
         sched: None,
-        quick: (2000, 0),
-        thorough: (30000, 0),
+        quick: (6000, 0),
+        thorough: (45000, 0),
         dense: dense_c12,
         check: check_c12,
         adjust: no_adjust,
@@ -479,9 +479,9 @@ fn dense_c15(thorough: bool, seed: u64) -> Vec<Case> {
     if thorough {
         v.extend(core);
     } else {
-        // quick: a 1/16 slice of the dense core, selected by the seed (stratified: every 16th configuration)
+        // quick: a pseudo-random 1/16 sample of the dense core, selected by the seed
         let off = (seed % 16) as usize;
-        v.extend(core.into_iter().enumerate().filter(|(i, _)| i % 16 == off).map(|(_, c)| c));
+        v.extend(core.into_iter().enumerate().filter(|(i, _)| (mix(0xC15, *i as u64) % 16) as usize == off).map(|(_, c)| c));
     }
     v
 }
@@ -535,8 +535,8 @@ pub fn c15() -> PropDef {
                 TermClass::ShortCircuit,
             ];
         }),
-        quick: (2000, 400),
-        thorough: (30000, 5000),
+        quick: (2000, 600),
+        thorough: (30000, 6000),
         dense: dense_c15,
         check: check_c15,
         adjust: adjust_c15,
